@@ -294,7 +294,8 @@ def run_case(inp):
                     tk = ndi.affine_transform(T, mtx, order=1, mode="constant")
                     lo = [ctr[d] - (ts[d] - 1) // 2 for d in range(3)]
                     vol[lo[0]:lo[0] + ts[0], lo[1]:lo[1] + ts[1], lo[2]:lo[2] + ts[2]] += tk
-                vol += 0.01 * r.normal(size=shape).astype(np.float32)
+                # noise well below the template's own amplitude (a blurred 5-point template peaks near 0.1-0.3)
+                vol += 0.02 * float(T.max()) * r.normal(size=shape).astype(np.float32)
                 img = _cast(vol, inp["dtype"]) if inp["dtype"] in ("float32", "float64") else vol
                 P = pick.ZNCCTemplateMatcher(T, rotation=Rotation.concatenate(rots))
                 half = np.array([0.0 if k % 2 else 0.5 for k in ts])
@@ -317,6 +318,14 @@ def run_case(inp):
             except Exception as e:  # noqa: BLE001
                 V("no-error", f"{kind} picker on a numpy image raised {type(e).__name__}: {str(e)[:100]}")
                 return viols
+            if len(ref[0]) == len(want) and len(want):
+                # pair every particle with its nearest pick (a half-voxel ambiguity may change the lexicographic order)
+                dm = np.abs(ref[0][None, :, :] - want[:, None, :]).max(axis=2)
+                nearest = dm.argmin(axis=1)
+                if len(set(nearest.tolist())) == len(want):
+                    want = want[np.argsort(nearest)]
+                    if quat_ref is not None:
+                        quat_ref = quat_ref[np.argsort(nearest)]
             if len(ref[0]) != len(want) or np.abs(ref[0] - want).max() > max(tol, 0.51 * scale if kind != "tm" and (inp["dtype"] in ("int16", "uint8") or inp.get("plateau") is not None) else tol):
                 V("planted", f"{kind} picker (numpy, dtype {inp['dtype']}, scale {scale}): {len(ref[0])} picks "
                              f"{np.round(ref[0], 2).tolist()[:8]} for {len(want)} particles at {want.tolist()[:8]}")
